@@ -19,6 +19,9 @@ type MonState struct {
 	// C12: a slash or a take-rate deduction happened (entitlements are computed from CURRENT token values)
 	ValueChanged bool
 	MaxResolution *big.Rat // worst 18-digit resolution of a validator's share ratio seen in this history (probes.go)
+	// everything the rewards pool has paid out so far in this history, per denom name: an over-entitlement baked into a reward
+	// index is paid to whoever claims first, in a real claim as well as in a probe round, and starves a later claim
+	PoolOut map[string]*big.Int
 	// sticky: the first reason the history left the scope of the value theorems (see unhealthyReason)
 	Unhealthy string
 }
@@ -227,6 +230,27 @@ func (e *Env) Monitor(st *Step) {
 	for _, x := range []*State{pre, post} {
 		if b := resolutionBound(x); e.Mon.MaxResolution == nil || b.Cmp(e.Mon.MaxResolution) > 0 {
 			e.Mon.MaxResolution = b
+		}
+	}
+	if e.Mon.PoolOut == nil {
+		e.Mon.PoolOut = map[string]*big.Int{}
+	}
+	for _, r := range pre.Bank {
+		if r.Acct != AccPool || r.Denom < 0 || r.Denom >= len(Denoms) {
+			continue
+		}
+		after := new(big.Int)
+		for _, q := range post.Bank {
+			if q.Acct == AccPool && q.Denom == r.Denom {
+				after = q.Amt
+			}
+		}
+		if d := new(big.Int).Sub(r.Amt, after); d.Sign() > 0 {
+			dn := Denoms[r.Denom]
+			if e.Mon.PoolOut[dn] == nil {
+				e.Mon.PoolOut[dn] = new(big.Int)
+			}
+			e.Mon.PoolOut[dn].Add(e.Mon.PoolOut[dn], d)
 		}
 	}
 
@@ -662,6 +686,11 @@ func ledgerFailures(post, pre *State, kind string, ok bool) map[string]string {
 				cls = "valshares_dust_large" // D14: one ulp of a share ratio times 1e15+ tokens is many shares
 			} else if infoRemoved {
 				cls = "validator_info_removed"
+			} else if r := removedResidual(pre, post, a.Denom); r.Sign() > 0 && diff.Cmp(new(big.Int).Add(r, new(big.Int).Mul(bigP, n))) <= 0 {
+				// D21: x/staking removed a validator whose alliance record still held validator shares of this asset although
+				// no delegation was left on it (the residue of exits at a share price != 1): the record is deleted, the
+				// asset's share total keeps the shares. The drift this step added is that residue (up to dust).
+				cls = "validator_removed_residual_shares"
 			}
 			fail(cls, fmt.Sprint(a.Denom), "asset %d total validator shares %s, sum over validators %s", a.Denom, a.S, w)
 		}
@@ -676,4 +705,25 @@ func ledgerFailures(post, pre *State, kind string, ok bool) map[string]string {
 		}
 	}
 	return out
+}
+
+// removedResidual: validator shares of `denom` held in the pre-state by alliance validator records that no longer exist in
+// the post-state and that no delegation of that denom pointed at.
+func removedResidual(pre, post *State, denom int) *big.Int {
+	r := new(big.Int)
+	for _, vi := range pre.Vals {
+		if post.Val(vi.ID) != nil {
+			continue
+		}
+		held := false
+		for _, d := range pre.Dels {
+			if d.Val == vi.ID && d.Denom == denom {
+				held = true
+			}
+		}
+		if !held {
+			r.Add(r, dcAmt(vi.VS, denom))
+		}
+	}
+	return r
 }
